@@ -48,10 +48,11 @@ def build_scene(
     volume_kwargs=None,
     recorder_modules=(),
     apply_kwargs=None,
+    spacing=None,
 ):
     """bounds: str (all faces) or dict face->type.  Returns dict(objects, arrays, params, config, info, volume).
     apply_kwargs: keyword arguments forwarded to apply_params (e.g. beta for projection transforms)."""
-    grid = make_grid(shape, widths)
+    grid = make_grid(shape, widths, spacing if spacing is not None else SPACING)
     if bounds is None or isinstance(bounds, str):
         btypes = {f: bounds for f in FACES}
     else:
@@ -91,7 +92,7 @@ def build_scene(
         objs.append(o)
         for cc in cs:
             if isinstance(cc, GridAt):
-                cons.append(cc.resolve(widths))
+                cons.append(cc.resolve(widths, spacing if spacing is not None else SPACING))
             else:
                 cons.append(cc)
     for c in extra_constraints:
@@ -130,12 +131,13 @@ class GridAt:
     def __init__(self, obj, axes, idx):
         self.obj, self.axes, self.idx = obj, tuple(axes), tuple(int(i) for i in idx)
 
-    def resolve(self, widths):
+    def resolve(self, widths, spacing=None):
+        spacing = SPACING if spacing is None else spacing
         from fdtdx.objects.object import RealCoordinateConstraint
 
         if widths is None:
             return self.obj.set_grid_coordinates(axes=self.axes, sides=("-",) * len(self.axes), coordinates=self.idx)
-        coords = tuple(float(edges_from_widths(np.asarray(widths[a], dtype=np.float64) * SPACING)[i]) for a, i in zip(self.axes, self.idx))
+        coords = tuple(float(edges_from_widths(np.asarray(widths[a], dtype=np.float64) * spacing)[i]) for a, i in zip(self.axes, self.idx))
         return RealCoordinateConstraint(object=self.obj.name, axes=self.axes, sides=("-",) * len(self.axes), coordinates=coords)
 
 
